@@ -118,7 +118,7 @@ def interest_wire(comps, can_be_prefix=False, must_be_fresh=False, nonce=None, l
     return T.enc_tlv(5, name_wire(comps) + mid + tail)
 
 
-def lp_wrap(fragment, nack_reason=None, nack=False, pit_token=None, extra=(), frag_index=None, frag_count=None) -> bytes:
+def lp_wrap(fragment, nack_reason=None, nack=False, pit_token=None, extra=(), frag_index=None, frag_count=None, trailing=()) -> bytes:
     """LpPacket with headers in type-number order.  extra: list of (type, value-bytes)."""
     hdr = []
     if frag_index is not None:
@@ -134,6 +134,8 @@ def lp_wrap(fragment, nack_reason=None, nack=False, pit_token=None, extra=(), fr
     body = b''.join(T.enc_tlv(t, v) for t, v in hdr)
     if fragment is not None:
         body += T.enc_tlv(FRAGMENT, fragment)
+    # (fields some sender put behind the Fragment: unrecognised ones are ignored wherever they stand)
+    body += b''.join(T.enc_tlv(t, v) for t, v in trailing)
     return T.enc_tlv(LP_PACKET, body)
 
 
